@@ -47,7 +47,7 @@ CHECKS = {
    text='Full stack from MIR (handle_htlc, check_htlc, PaymentState, payment_lifecycle with its select!, resolve, ClnDatastore, PayPaymentProvider, BlockWatcher) as tasks under the scheduler with '
         'symbolic HTLC amounts / declared totals / forward amounts / invoice amount (present, absent, present + amount TLV) / policy. At every pay RPC call the solver decides: '
         'sum of the amounts of the HTLCs registered for the hash >= amount to deliver + base + floor(amount*ppm/1e6); maxfee <= held - amount; amount argument None iff the invoice has an amount '
-        'else exactly the declared amount; and no counted HTLC is answered before pay returns. All schedules of <=2 (quick) / <=3 (thorough) HTLCs.',
+        'else exactly the declared amount; and no counted HTLC is answered before pay returns. All schedules of <=2 (quick) / <=3 (thorough) HTLCs. Last clause (held until the fate is known): a two-part outgoing payment whose pay command ends without a final answer, and a restart with two earlier parts: no counted HTLC is failed, and no second pay is funded, while a part is in flight.',
    design='4/C03', technique='symbolic execution of the real async stack from MIR under an explicit-state scheduler with partial-order reduction; SMT decides data; native replay over a fake node',
    note=TRUST + '; node + tokio contracts; products abstracted by an uninterpreted function during search and re-validated exactly on any counterexample; single HTLC amount <= money supply.'),
  'C01': dict(category='model_checking',
@@ -64,19 +64,19 @@ CHECKS = {
  'C07': dict(category='model_checking',
    text='Full stack from MIR: every resolution event hands the same response to every registered listener and leaves none behind; with symbolic fields, any HTLC that is rejecting (fee on declared total, '
         'relative expiry) on a still-incomplete set never leads to pay; two parts with conflicting trampoline info (different invoice string for one hash; same amountless invoice with different amount TLVs) '
-        'never lead to pay. Stored state free / pending / succeeded. All schedules incl. every select! start index.',
+        'never lead to pay. Stored state free / pending / succeeded. All schedules incl. every select! start index. Restart configurations: a rejection raised while an interrupted attempt is still being settled stays in force; replayed parts of an invoice recorded as paid are all settled.',
    design='4/C07', technique='symbolic execution of the real async stack from MIR under an explicit-state scheduler with partial-order reduction; SMT decides data; native replay over a fake node',
    note=TRUST + '; bounds: 2 HTLCs (quick) / 3 (thorough), 1 part.'),
  'C11': dict(category='model_checking',
    text='Full stack from MIR with a symbolic MPP timeout (1..2^32-1 s) and partial HTLCs that never reach the required total (assumed on the symbolic inputs): the only response is temporary_trampoline_failure, '
         'decided only after the timer fired; the timer duration term equals the configured timeout and it is armed in the lifecycle step that received the store answer; no pay is ever issued. '
-        'Restart path (Pending record, dead earlier attempt, symbolic attempt time older or newer than now): duration = timeout - min(timeout, now - attempt time), never more than one period; zero => immediate failure.',
+        'Restart path (Pending record, dead earlier attempt, symbolic attempt time older or newer than now): duration = timeout - min(timeout, now - attempt time), never more than one period; zero => immediate failure. Lock discipline (no RPC, pause or blocking send with the payments lock held) on a funded payment, with a datastore fault, and with two failing late parts while paying.',
    design='4/C11', technique='symbolic execution of the real async stack from MIR under an explicit-state scheduler with partial-order reduction; SMT decides data; native replay over a fake node',
    note=TRUST + '; tokio timer accuracy is a contract; bounds: 2 partial HTLCs (quick) / 3.'),
  'C13': dict(category='model_checking',
    text='The real handle_htlc / check_htlc / extract_trampoline_info / default_response / TLV code runs on every class of non-trampoline request (forward with valid metadata, no metadata, missing forward_msat, '
         'bad signature, foreign hash, disagreeing or 9-byte amount field) with symbolic numeric fields, and on every metadata byte string of length 0..6 (quick) / 0..9: the response is Continue on the first poll, '
-        'with no RPC call, spawn, table insertion or timer; a rewritten payload equals the other records byte for byte and in order (record 16 placed in the middle of the payload).',
+        'with no RPC call, spawn, table insertion or timer; a rewritten payload equals the other records byte for byte and in order (record 16 placed in the middle of the payload). Also: sibling records at BigSize boundaries, metadata repeating the invoice record (first one unusable), a plain HTLC while a trampoline payment of the same hash is pending.',
    design='4/C13', technique='symbolic execution of the real async stack from MIR under an explicit-state scheduler with partial-order reduction; SMT decides data; native replay over a fake node',
    note=TRUST + '; invoice oracle: byte strings other than the scenario invoices do not parse; other payload records concrete.'),
  'C06': dict(category='model_checking',
@@ -116,7 +116,7 @@ CHECKS = {
    text='The real handle_htlc / check_htlc / extract_trampoline_info / get_tu64 / TLV code runs with a fully symbolic invoice oracle (signature validity, hash equal or different, amount present or absent, '
         'two route hints of 2 and 1 hops with symbolic node ids, symbolic self-route-hint setting) and an amount field that is absent or 0,1,8,9 (quick) / 0..9 symbolic bytes: the HTLC is held as a trampoline payment only if '
         'the signature verifies and the hashes are equal; the amount is the invoice amount (a well-formed amount field must equal it) or else the big-endian value of a 0..8-byte field; payee and bolt11 come from the invoice; '
-        'the local node as last hop of any hint with the setting off yields an immediate failure and never a held HTLC.',
+        'the local node as last hop of any hint with the setting off yields an immediate failure and never a held HTLC. A second HTLC of the same hash with a different signed invoice that has a disallowed self route hint is failed at once.',
    design='4/C10', technique='symbolic execution of the real async stack from MIR under an explicit-state scheduler with partial-order reduction; SMT decides data; native replay over a fake node',
    note=TRUST + '; bech32 / SHA-256 / secp256k1 are an uninterpreted, functionally consistent oracle.'),
  'C17': dict(category='model_checking',
@@ -131,7 +131,7 @@ CHECKS = {
  'C19': dict(category='proof',
    text='The lowered coroutine of async main is executed with the six integer options as symbolic i64 values and the flags as symbolic booleans (get_info, block watcher start and e-mail setup through their real code against the node model): '
         'the init acknowledgement (cp.start) is reached iff every integer is in the range of its target type and policy delta > safety delta; when reached, the HtlcManagerParams and the provider hold, term for term, '
-        'the configured values (retry_for = min(payment timeout, 65535), allow_self_route_hints = not flag). No bound on the values. Second stage: what the provider holds is what it puts into every pay request (retry_for, maxfee, maxdelay, amount symbolic; xpay on and off). Counterexamples are replayed by starting the real plugin binary against a fake lightningd.',
+        'the configured values (retry_for = min(payment timeout, 65535), allow_self_route_hints = not flag). No bound on the values. Second stage: what the provider holds is what it puts into every pay request (retry_for, maxfee, maxdelay, amount symbolic; xpay on and off). Counterexamples are replayed by starting the real plugin binary against a fake lightningd. Third stage: the configured safety delta bounds maxdelay against the highest height processed when the payment is initiated (1 HTLC, 1 height told).',
    design='4/C19', technique='symbolic execution of the async main state machine from MIR; SMT over all i64 option values; native replay with the real binary',
    note=TRUST + '; ConfiguredPlugin::option is a contract (returns the configured value): the option parsing of cln_plugin is outside.'),
 }
